@@ -248,6 +248,13 @@ func c11Specs() []c11Spec {
 		c11Spec{Name: "stat+stat/cancel-while-writer-blocked", Prelude: []p9p.Message{attach}, InFlight: []p9p.Message{stat0, stat0}, Fault: "cancel", Stalled: true},
 		c11Spec{Name: "blockedread+stat/cancel", Prelude: []p9p.Message{attach, walkAB, open1}, InFlight: []p9p.Message{read1, stat0}, Fault: "cancel", BlockRead: true},
 	)
+	// hundreds of fids bound when the peer disconnects: Stop's sweep at scale
+	// (one schedule; the interleavings of Stop are C13's business)
+	manyPrelude := []p9p.Message{attach}
+	for i := 1; i <= 150; i++ {
+		manyPrelude = append(manyPrelude, p9p.MessageTwalk{Fid: 0, Newfid: p9p.Fid(i)})
+	}
+	out = append(out, c11Spec{Name: "many-fids-150/close", Prelude: manyPrelude, Fault: "close"})
 	return out
 }
 
@@ -261,7 +268,7 @@ func c11Scenarios() []*explore.Scenario {
 
 func c11(c *core.Ctx) {
 	c.Budget(120*time.Second, 14*time.Minute)
-	c.SetRule("scenarios: ServeConn(SSession(SFileSys(mock))) after negotiation, with nothing / stat / walk-to-new-fid / attach / a read blocked until cancelled (alone, with its own flush, with a clunk of the same fid and the flush) / stat+clunk in flight; one fault: peer close (after 0-1 replies), cancellation of the serving context, a write error on any reply, a read error on any read (the latter two as 1 deviation placed at every conn call); file-system calls complete at scheduling points; every interleaving up to the bound. Oracle at quiescence: ServeConn returned, no task it started is still blocked (a handler blocked on its context proves it was not cancelled), Stop ran exactly once, no panic, and with every handler returned no fid is bound and every entry handed to the session was released exactly once. outcome = client end state + replies + handles")
+	c.SetRule("scenarios: ServeConn(SSession(SFileSys(mock))) after negotiation, with nothing / stat / walk-to-new-fid / attach / a read blocked until cancelled (alone, with its own flush, with a clunk of the same fid and the flush) / stat+clunk in flight; 150 fids bound at the disconnect (one schedule); one fault: peer close (after 0-1 replies), cancellation of the serving context, a write error on any reply, a read error on any read (the latter two as 1 deviation placed at every conn call); file-system calls complete at scheduling points; every interleaving up to the bound. Oracle at quiescence: ServeConn returned, no task it started is still blocked (a handler blocked on its context proves it was not cancelled), Stop ran exactly once, no panic, and with every handler returned no fid is bound and every entry handed to the session was released exactly once. outcome = client end state + replies + handles")
 	c.Assume("'bounded time' is decided as quiescence with the environment frozen: ServeConn still parked when nothing is enabled is a hang", "handlers return once cancelled (the mock's blocking read returns on ctx.Done())")
 	var plans []Plan
 	for _, sp := range c11Specs() {
@@ -269,6 +276,11 @@ func c11(c *core.Ctx) {
 		dev := 0
 		if sp.Fault == "writefault" || sp.Fault == "readfault" {
 			dev = 1
+		}
+		if strings.HasPrefix(sp.Name, "many-fids") {
+			sc.MaxSteps = 400000
+			plans = append(plans, Plan{Sc: sc, Max: -1})
+			continue
 		}
 		if c.Quick() {
 			plans = append(plans, Plan{Sc: sc, Delay: true, Max: 3, Dev: dev}, Plan{Sc: sc, Max: 1, Dev: dev})
